@@ -7,6 +7,7 @@ import (
 	"path/filepath"
 	"sort"
 	"strconv"
+	"sync"
 
 	"github.com/google/uuid"
 	"github.com/semafind/semadb/conversion"
@@ -547,4 +548,56 @@ func (c Config) hasGraphOnly() bool {
 		}
 	}
 	return g
+}
+
+// InsertRace issues k insert requests at the same time; they share one fresh id
+// (and are otherwise disjoint), so exactly one of them can be accepted.
+func (r *Runner) InsertRace(k int) {
+	if r.Cfg.Mem {
+		return
+	}
+	fresh := r.pickFresh(1 + 2*k)
+	if len(fresh) < 1+k {
+		return
+	}
+	shared := fresh[0]
+	rest := fresh[1:]
+	batches := make([][]GenPoint, k)
+	for i := 0; i < k; i++ {
+		var b []GenPoint
+		b = append(b, r.gen(shared, false, 0.9))
+		for j := i; j < len(rest); j += k {
+			b = append(b, r.gen(rest[j], false, 0.9))
+		}
+		r.R.Shuffle(len(b), func(x, y int) { b[x], b[y] = b[y], b[x] })
+		batches[i] = b
+	}
+	oks := make([]int, k)
+	var wg sync.WaitGroup
+	start := make(chan struct{})
+	for i := 0; i < k; i++ {
+		wg.Add(1)
+		real := realBatch(batches[i])
+		go func(i int) {
+			defer wg.Done()
+			<-start
+			if r.Shard.InsertPoints(real) == nil {
+				oks[i] = 1
+			}
+		}(i)
+	}
+	close(start)
+	wg.Wait()
+	abs := make([][]M, k)
+	for i := range batches {
+		abs[i] = absBatch(batches[i])
+		if oks[i] == 1 && !r.Trial {
+			for _, p := range batches[i] {
+				r.believedLive[p.ID] = true
+			}
+			r.remember(batches[i], false)
+		}
+	}
+	r.Batches++
+	r.TW.Emit("InsertRace", M{"batches": abs, "oks": oks, "P": r.proj()})
 }
